@@ -147,6 +147,12 @@ pub(crate) struct CoreInner {
 	/// Visible sequence number - the highest sequence number that is visible to readers.
 	/// Shared with CommitPipeline for coordinated updates.
 	pub(crate) visible_seq_num: Arc<AtomicU64>,
+
+	/// WAL segments holding the record of a commit that has been logged but
+	/// not yet applied to a memtable (segment -> number of such commits). A
+	/// flush must not release a segment listed here: until the apply, the
+	/// record is the only copy of the commit.
+	pub(crate) wal_in_flight: Mutex<std::collections::BTreeMap<u64, usize>>,
 }
 
 impl CoreInner {
@@ -213,7 +219,55 @@ impl CoreInner {
 			lockfile: Mutex::new(lockfile),
 			error_handler: Arc::new(BackgroundErrorHandler::new()),
 			visible_seq_num,
+			wal_in_flight: Mutex::new(std::collections::BTreeMap::new()),
 		})
+	}
+
+	fn wal_in_flight_add(&self, wal_number: u64) {
+		if let Ok(mut in_flight) = self.wal_in_flight.lock() {
+			*in_flight.entry(wal_number).or_insert(0) += 1;
+		}
+	}
+
+	fn wal_in_flight_remove(&self, wal_number: u64) {
+		if let Ok(mut in_flight) = self.wal_in_flight.lock() {
+			if let Some(count) = in_flight.get_mut(&wal_number) {
+				*count -= 1;
+				if *count == 0 {
+					in_flight.remove(&wal_number);
+				}
+			}
+		}
+	}
+
+	/// The `log_number` to record once the memtable `flushed_table_id` (whose
+	/// own segment is `flushed_wal_number`) has been written out: the oldest
+	/// WAL segment that still holds a record found in no table. Normally that
+	/// is `flushed_wal_number + 1`, but a commit logged before a rotation can
+	/// be applied to a memtable created after it, or not be applied yet; its
+	/// segment has to outlive the flush of the memtable it was rotated with.
+	fn log_number_after_flush(&self, flushed_table_id: u64, flushed_wal_number: u64) -> Result<u64> {
+		let mut keep = flushed_wal_number + 1;
+		{
+			let active = self.active_memtable.read()?;
+			if !active.is_empty() {
+				keep = keep.min(active.oldest_wal_number());
+			}
+		}
+		{
+			let immutables = self.immutable_memtables.read()?;
+			for entry in immutables.iter() {
+				if entry.table_id != flushed_table_id && !entry.memtable.is_empty() {
+					keep = keep.min(entry.wal_number).min(entry.memtable.oldest_wal_number());
+				}
+			}
+		}
+		if let Ok(in_flight) = self.wal_in_flight.lock() {
+			if let Some((&oldest, _)) = in_flight.iter().next() {
+				keep = keep.min(oldest);
+			}
+		}
+		Ok(keep)
 	}
 
 	pub(crate) fn immutable_count(&self) -> usize {
@@ -317,7 +371,7 @@ impl CoreInner {
 		// Step 3: Prepare atomic changeset
 		let mut changeset = ManifestChangeSet::default();
 		changeset.new_tables.push((0, Arc::clone(&table)));
-		changeset.log_number = Some(wal_number + 1);
+		changeset.log_number = Some(self.log_number_after_flush(table_id, wal_number)?);
 
 		log::debug!(
 			"Changeset prepared: table_id={}, log_number={} (WAL #{:020} flushed)",
@@ -485,7 +539,7 @@ impl CoreInner {
 
 		// Schedule async WAL cleanup
 		let wal_dir = self.wal.read().get_dir_path().to_path_buf();
-		let min_wal_to_keep = entry.wal_number + 1;
+		let min_wal_to_keep = self.level_manifest.read()?.get_log_number();
 
 		tokio::spawn(async move {
 			match cleanup_old_segments(&wal_dir, min_wal_to_keep) {
@@ -956,6 +1010,10 @@ impl CommitEnv for LsmCommitEnv {
 		if sync {
 			wal_guard.sync()?;
 		}
+		// Logged but not applied yet: `apply` takes it out again.
+		let wal_number = wal_guard.get_active_log_number();
+		self.core.wal_in_flight_add(wal_number);
+		processed_batch.wal_number = Some(wal_number);
 		drop(wal_guard);
 
 		Ok(processed_batch)
@@ -963,12 +1021,31 @@ impl CommitEnv for LsmCommitEnv {
 
 	/// Apply batch to memtable with retry on arena full.
 	fn apply(&self, batch: &Batch) -> Result<()> {
+		// Applied or failed, on return the batch is no longer "logged but not
+		// applied". A memtable that receives it remembers its WAL segment first.
+		struct InFlight<'a>(&'a CoreInner, Option<u64>);
+		impl Drop for InFlight<'_> {
+			fn drop(&mut self) {
+				if let Some(wal_number) = self.1 {
+					self.0.wal_in_flight_remove(wal_number);
+				}
+			}
+		}
+		let _in_flight = InFlight(&self.core, batch.wal_number);
+		let add = |memtable: &MemTable| -> Result<()> {
+			memtable.add(batch)?;
+			if let Some(wal_number) = batch.wal_number {
+				memtable.note_batch_wal_number(wal_number);
+			}
+			Ok(())
+		};
+
 		// Try to add to current memtable
 		let result = {
 			let active_memtable = self.core.active_memtable.read()?;
 			#[cfg(feature = "verif")]
 			crate::verif::note("apply.memtable", batch.starting_seq_num, active_memtable.get_wal_number());
-			active_memtable.add(batch)
+			add(&active_memtable)
 		};
 
 		match result {
@@ -992,7 +1069,7 @@ impl CommitEnv for LsmCommitEnv {
 				let active_memtable = self.core.active_memtable.read()?;
 				#[cfg(feature = "verif")]
 				crate::verif::note("apply.memtable", batch.starting_seq_num, active_memtable.get_wal_number());
-				active_memtable.add(batch)
+				add(&active_memtable)
 			}
 			Err(e) => Err(e),
 		}
